@@ -213,7 +213,42 @@ class Engine:
                     if isinstance(v, str):
                         return "str"
                     if v is None:
-                        return None
+                        return self._infer_optional_field(cls, name)
+        return None
+
+    def _infer_optional_field(self, cls, name):
+        """a field initialised to None: its other type is read off the other assignments `self.<name> = <expr>` in the
+        class (arithmetic / len() / int literal -> int; bytes literal or slice of bytes -> bytes; True/False -> bool).
+        Anything else stays untyped (the function is then outside the subset)."""
+        kinds = set()
+        for c in self.mro(cls):
+            for qn, fi in self.src.funcs.items():
+                if not qn.startswith(c + ".") or qn.endswith(".__init__"):
+                    continue
+                for n in ast.walk(fi.node):
+                    if isinstance(n, ast.Assign) and len(n.targets) == 1 and isinstance(n.targets[0], ast.Attribute) \
+                            and isinstance(n.targets[0].value, ast.Name) and n.targets[0].value.id == "self" \
+                            and n.targets[0].attr == name:
+                        v = n.value
+                        if isinstance(v, ast.Constant) and v.value is None:
+                            continue
+                        if isinstance(v, ast.Constant) and isinstance(v.value, bool):
+                            kinds.add("bool")
+                        elif isinstance(v, ast.Constant) and isinstance(v.value, int):
+                            kinds.add("int")
+                        elif isinstance(v, ast.Constant) and isinstance(v.value, bytes):
+                            kinds.add("bytes")
+                        elif isinstance(v, ast.BinOp) and isinstance(v.op, (ast.Add, ast.Sub, ast.Mult)) and any(
+                                isinstance(x, ast.Call) and isinstance(x.func, ast.Name) and x.func.id == "len" or
+                                isinstance(x, ast.Constant) and isinstance(x.value, int) and not isinstance(x.value, bool)
+                                for x in (v.left, v.right)):
+                            kinds.add("int")
+                        elif isinstance(v, ast.Call) and isinstance(v.func, ast.Name) and v.func.id in ("len", "int"):
+                            kinds.add("int")
+                        else:
+                            kinds.add("?")
+        if len(kinds) == 1 and "?" not in kinds:
+            return "opt[%s]" % kinds.pop()
         return None
 
     def is_exception_name(self, name):
